@@ -465,6 +465,50 @@ def rule_endpoints(chk, prog):
     (r.bad if miss else r.ok)("Avoid::ConnRef::generatePath", fn.where(), "missing end-point assertions: %s" % miss if miss else "")
 
 
+def rule_contains(chk, prog):
+    r = chk.rule("CONTAINS-AGREEMENT", "the two producers of Router::contains (which shapes enclose a connector end point: generateContains "
+                 "per end point, adjustContainsWithAdd per added shape) test the same polygon -- the obstacle's routingPolygon(), the one "
+                 "whose vertices are in the visibility graph -- with inPoly(..., countBorder = false); an end point inside the buffer ring "
+                 "of a shape but not recorded as enclosed gets no visibility edges and its connector falls back to a straight line", floor=3)
+    fn = prog.fn("Avoid::Router::generateContains")
+    sal = single_assignment_locals(fn)
+    cs = [c for c in calls(fn) if c.get("cname") == "Avoid::inPoly"]
+    r.count()
+    if len(cs) != 1:
+        raise AnalysisBroken("generateContains: expected one inPoly test")
+    a = call_args(cs[0])
+    bad = None
+    if "routingPolygon()" not in norm(a[0], sal):
+        bad = "encloses-test uses `%s`, not the obstacle's routingPolygon()" % norm(a[0], sal)
+    elif norm(a[2], sal) not in ("false",):
+        bad = "points on the border are counted as inside (countBorder = %s)" % norm(a[2], sal)
+    (r.bad if bad else r.ok)("generateContains", fn.loc(cs[0]), bad or "")
+    fa = prog.fn("Avoid::Router::adjustContainsWithAdd")
+    sal = single_assignment_locals(fa)
+    cs = [c for c in calls(fa) if c.get("cname") == "Avoid::inPoly"]
+    r.count()
+    bad = None
+    if len(cs) != 1 or norm(call_args(cs[0])[0]) != fa.params[0]["name"] or norm(call_args(cs[0])[2], sal) != "false":
+        bad = "adjustContainsWithAdd no longer tests its polygon parameter with countBorder = false"
+    (r.bad if bad else r.ok)("adjustContainsWithAdd", fa.where(), bad or "")
+    k = 0
+    for f in prog.all_functions():
+        if f.tmpl == "pattern" or "/libavoid/" not in f.file:
+            continue
+        sl = None
+        for c in calls(f):
+            if c.get("cname") != "Avoid::Router::adjustContainsWithAdd":
+                continue
+            sl = sl or single_assignment_locals(f)
+            k += 1
+            r.count()
+            a0 = norm(call_args(c)[0], sl)
+            (r.ok if "routingPolygon()" in a0 else r.bad)("%s: adjustContainsWithAdd(%s)" % (f.q, a0[:60]), f.loc(c), "" if "routingPolygon()" in a0 else
+                                                          "enclosure of end points by an added shape is tested against `%s`, not its routingPolygon()" % a0)
+    if k == 0:
+        raise AnalysisBroken("no call site of adjustContainsWithAdd")
+
+
 def run(chk):
     prog = chk.load()
     rule_callers(chk, prog)
@@ -473,6 +517,9 @@ def run(chk):
     rule_first_blocker(chk, prog)
     rule_fallback(chk, prog)
     rule_endpoints(chk, prog)
+    rule_contains(chk, prog)
+    from .c10 import rule_limits_narrow
+    rule_limits_narrow(chk, prog)
     from ..rules import mirrors
     r = chk.rule("MIRROR", "scan-line helpers that bound the space a nudged segment may move in (firstObstacleAbove/Below, "
                  "markShiftSegmentsAbove/Below, NudgingShiftSegment::lowC/highC) stay exact mirror images of each other "
